@@ -163,6 +163,9 @@ def main():
     # always: the whole-sphere tile through the filtered entry point, planetary (the only tile whose coordinates depend on the
     # coordinate system handed to the sampler rather than on the Tile)
     configs.append(("npy", None, "f64", True, 0, True))
+    # ... and the whole-sphere tile in a bottom-up format, through both entry points (its rows are stored in reverse order like any other tile's)
+    configs.append(("fits", None, "f32", True, 0, False))
+    configs.append(("npy", "fits", "f64", False, 0, True))
     if len(configs) % 2 == 0:
         configs.append(("npy", None, "f64", False, 1, False))
     configs.append(("npy", None, "f64", True, 2, True))       # odd index: filtered, planetary, through the Builder
